@@ -32,7 +32,7 @@ class C17(Harness):
             'history is non-empty; distinct by case')
     assumptions = ('classes are importable (module level); histories: sets, update, in-place mutation, per-instance Parameter edits (bounds, Selector objects), '
                    'sub-object attachment and leaf sets, user watchers bound to the instance (incl. precedences), ordinary attributes (incl. one in __slots__); '
-                   'dependencies on parameters of attached sub-objects are exercised by pinned scenarios (known finding)',)
+                   'a subclass with a depends(\'sub.x\', watch=True) method is run over every pre-history that attaches the sub-object and all post-histories',)
 
     def bounds(self, tier):
         return {'pre_length': 2, 'post_length': 2, 'mechanisms': mechs(tier)}
@@ -55,9 +55,16 @@ class C17(Harness):
                 for side in ('orig', 'copy'):
                     out.append({'cls': 'TopSub', 'pre': pre, 'mech': m, 'post': [[side, 'attach'], [side, 'leaf', 9]]})
                     out.append({'cls': 'TopSub', 'pre': pre, 'mech': m, 'post': [[side, 'set', 'v', 6]]})
-        # pinned: dependency on a parameter of an attached sub-object
-        for m in mechs(tier):
-            out.append({'cls': 'TopSub', 'pre': [['attach']], 'mech': m, 'post': [['copy', 'leaf', 9]], 'pinned': 'C17-subobject-dependency'})
+        # dependency on a parameter of a sub-object that is attached at copy time: every pre-history containing an attachment, all post-histories
+        # (+ replacing / detaching the sub-object on one side after the copy)
+        att = [[['attach']], [['attach_set', 7]], [['attach'], ['detach'], ['attach']]]
+        att += [[['attach'], p] for p in PRE if p[0] not in ('attach', 'attach_set')] + [[p, ['attach']] for p in PRE if p[0] not in ('attach', 'attach_set')]
+        sub_posts = posts + [[[s1, 'leaf', 9], [s2] + p2] for s1 in ('orig', 'copy') for s2 in ('orig', 'copy') for p2 in (['attach'], ['detach'], ['leaf', 4])]
+        sub_posts += [[[s1] + p1, [s2, 'leaf', 9]] for s1 in ('orig', 'copy') for s2 in ('orig', 'copy') for p1 in (['attach'], ['detach'])]
+        for pre in att:
+            for m in mechs(tier):
+                for post in sub_posts:
+                    out.append({'cls': 'TopSub', 'pre': pre, 'mech': m, 'post': post})
         return out
 
     # ---------------------------------------------------------------
@@ -213,7 +220,7 @@ class C17(Harness):
                 exp = 1
             if op[0] == 'leaf' and case['cls'] == 'TopSub' and S.sub is not None:
                 exp = 1
-            if op[0] == 'attach' and case['cls'] == 'TopSub':
+            if op[0] in ('attach', 'detach') and case['cls'] == 'TopSub':
                 if len(dep) > 1:
                     vs.append(V('dependent-method-count', '%s: attaching a sub-object invoked dependent methods %r' % (ctx, dep), op=op[0], got=len(dep), **key))
                     break
